@@ -286,6 +286,43 @@ def check_user_table(ctx, pairs_, others):
         ChargeConjugateReplacement(charge_conj_defs=dict(table)).visit(t)
         return once, read(t)
 
+    if len(table) >= 2:
+        # one visitor object kept by the caller; the caller's table (a mapping of his own) fails once while the library reads it -- the visit ends with that
+        # exception -- and is healthy afterwards: the next visit of the same visitor conjugates by the table
+        class _FlakyTable(dict):
+            fails = 1
+            after = ctx.rng.randint(0, max(0, len(table) - 1))
+
+            def items(self):
+                if self.fails > 0:
+                    type(self).fails -= 1
+
+                    def gen(n=self.after):
+                        for i, kv in enumerate(dict.items(self)):
+                            if i >= n:
+                                raise OSError("harness: the caller's table failed while it was read")
+                            yield kv
+                    return gen()
+                return dict.items(self)
+
+        def kept_visitor():
+            vis = ChargeConjugateReplacement(charge_conj_defs=_FlakyTable(table))
+            rev = [b for _, b in pairs_]           # names that are found by reading a pair backwards
+            t1 = Tree("decay", [Tree("particle", [Token("LABEL", rev[-1])]), Tree("decayline", [Tree("value", [Token("SIGNED_NUMBER", "1.0")]), Tree("particle", [Token("LABEL", rev[-1])]), Tree("model", [Token("MODEL_NAME", "PHSP")])])])
+            try:
+                vis.visit(t1)
+            except OSError:
+                pass
+            t2 = Tree("decay", [Tree("particle", [Token("LABEL", rev[0])]), Tree("decayline", [Tree("value", [Token("SIGNED_NUMBER", "1.0")])] + [Tree("particle", [Token("LABEL", d)]) for d in rev] + [Tree("model", [Token("MODEL_NAME", "PHSP")])])])
+            vis.visit(t2)
+            return [c.children[0].value for c in t2.children[1].children if c.data == "particle"], rev
+
+        ctx.hit("visitor-kept-after-a-visit-during-which-the-callers-table-failed")
+        okk, resk = ctx.guard("user-table:kept-visitor", wit, kept_visitor)
+        if okk:
+            gotk, rev = resk
+            if gotk != [want[d] for d in rev]:
+                ctx.violate("user-table:visitor:wrong-after-a-visit-that-failed", f"second visit of the kept visitor gives {gotk} for {rev}, expected {[want[d] for d in rev]}", wit)
     ok, res = ctx.guard("user-table:visitor", wit, visit_twice)
     if ok:
         once, twice = res
